@@ -72,7 +72,7 @@ Definition is_boundary_line (line boundary : list N) : bool :=
 
 Definition trim_body_end (b : list N) : list N :=
   let n := length b in
-  if Nat.leb n 2 then b else
+  if Nat.ltb n 2 then b else          (* body_length >= 2 (was > 2: an empty body came back as CRLF) *)
   match rev b with
   | 10 :: 13 :: r => rev r
   | 10 :: r => rev r
@@ -88,28 +88,27 @@ Fixpoint header_phase (fuel : nat) (boundary : list N) (rest : list N) (hs : lis
   let sline := filter_ascii_control line in
   let empty := beqs (trim sline) [] in
   if is_boundary_line sline boundary then HErr else
-  match rest' with [] => HDone | _ =>                      (* bytes_read == total_bytes *)
+  let eof := match rest' with [] => true | _ => false end in                 (* bytes_read == total_bytes *)
+  if eof && empty && match hs with [] => true | _ => false end then HDone else     (* line break after the last delimiter *)
   if empty && match hs with [] => true | _ => false end then HErr else
-  if empty then HCont hs rest' else
+  if empty then (if eof then HErr else HCont hs rest') else
   match parse_header sline with
   | None => HErr
-  | Some h => header_phase f boundary rest' (hs ++ [h])
-  end end end.
+  | Some h => if eof then HErr else header_phase f boundary rest' (hs ++ [h])  (* the input ends inside the headers: no end boundary *)
+  end end.
 
 (* body phase: collects lines until one contains the dash-stripped boundary *)
 Inductive bres := BFound (body rest : list N) | BEof (body : list N) | BPanic.
+(* the delimiter test of the body phase: hyphens, CR and LF removed from the line, which has to END with the hyphen-less boundary *)
+Definition is_delim (line esc : list N) : bool :=
+  match esc with [] => false | _ => ends_with (filter (fun c => negb (N.eqb c 45 || N.eqb c 13 || N.eqb c 10)) line) esc end.
 Fixpoint body_phase (fuel : nat) (esc : list N) (rest : list N) (acc : list N) : bres :=
   match fuel with O => BEof acc | S f =>
   match rest with
   | [] => BEof acc
   | _ =>
     let (line, rest') := split_line rest in
-    if Nat.leb (length esc) (length line) then
-      match esc with
-      | [] => BPanic                                         (* windows(0) *)
-      | _ => if find_sub line esc then BFound acc rest' else body_phase f esc rest' (acc ++ line)
-      end
-    else body_phase f esc rest' (acc ++ line)
+    if is_delim line esc then BFound acc rest' else body_phase f esc rest' (acc ++ line)
   end end.
 
 Fixpoint parts_loop (fuel : nat) (boundary : list N) (rest : list N) (acc : list part) : mres :=
@@ -147,7 +146,7 @@ Definition multipart_generate (ps : list part) (boundary : list N) : list N :=
 Definition B1 : list N := [45;45;66;110;68;49].   (* --BnD1 *)
 Definition CDH : header := mkH [67;111;110;116;101;110;116;45;68;105;115;112;111;115;105;116;105;111;110] (FORM_DATA ++ [59;32] ++ NAME_K ++ [61;34;102;34]).
 Example mp_abc : multipart_parse (multipart_generate [mkPart [CDH] [97;98;99]] B1) B1 = MOk [mkPart [CDH] [97;98;99]]. Proof. vm_compute. reflexivity. Qed.
-Example mp_empty_body : multipart_parse (multipart_generate [mkPart [CDH] []] B1) B1 = MOk [mkPart [CDH] [13;10]]. Proof. vm_compute. reflexivity. Qed.   (* F1 *)
-Example mp_inner_hyphen : multipart_parse (multipart_generate [mkPart [CDH] [97]] [45;45;66;45;49]) [45;45;66;45;49] = MErr. Proof. vm_compute. reflexivity. Qed. (* F2 *)
-Example mp_truncated : multipart_parse ([66;49;13;10;72;58;32;118;13;10]) [66;49] = MOk []. Proof. vm_compute. reflexivity. Qed.               (* F4 *)
+Example mp_empty_body : multipart_parse (multipart_generate [mkPart [CDH] []] B1) B1 = MOk [mkPart [CDH] []]. Proof. vm_compute. reflexivity. Qed.   (* was [13;10] *)
+Example mp_inner_hyphen : multipart_parse (multipart_generate [mkPart [CDH] [97]] [45;45;66;45;49]) [45;45;66;45;49] = MOk [mkPart [CDH] [97]]. Proof. vm_compute. reflexivity. Qed. (* was MErr *)
+Example mp_truncated : multipart_parse ([66;49;13;10;72;58;32;118;13;10]) [66;49] = MErr. Proof. vm_compute. reflexivity. Qed.                (* was MOk [] *)
 Example q_late : decode_uri (encode_uri [37;50;54]) = [38]. Proof. vm_compute. reflexivity. Qed.                                               (* "%26" -> "&" *)
